@@ -165,7 +165,7 @@ where
     let name = e.prog.name.clone();
     let mut rng = ctx.rng(&format!("c05-inputs-{name}"));
     let (nb, nr) = if bud.thorough { (bud.n_boundary.min(6), bud.n_random.min(4)) } else { (1, 1) };
-    let inputs = gen_inputs(e, idx, nb, nr, &mut rng);
+    let inputs = gen_inputs(e, idx, nb, nr, bud.max_specials, &mut rng);
     let (mut honest, mut edits, mut ood, mut ars_targets, mut attacks) = (0u64, 0u64, 0u64, 0u64, 0u64);
     let Some(first_ok) = inputs.iter().find(|i| e.prog.eval(i).is_some()) else {
         return json!({"skipped": "no admissible input"});
@@ -251,9 +251,6 @@ where
                     }
                 }
                 rep.nontrivial(&(name.clone(), fnv(format!("{input:?}").as_bytes())));
-                if e.prog.nonunique {
-                    continue;
-                }
                 let (_, outs) = e.prog.eval(input).unwrap();
                 for pos in (n_in..exp.len()).take(bud.opts.max_positions) {
                     let mut targets = vec![exp[pos] + F::ONE, F::ZERO, F::ONE - exp[pos], exp[pos] - F::ONE];
@@ -339,7 +336,7 @@ where
     let entries: Vec<(usize, FEntry<K>)> = field_catalogue::<K>(fidx, &mut rng, if bud.thorough { 3 } else { 1 })
         .into_iter()
         .enumerate()
-        .filter(|(_, e)| bud.thorough || e.quick)
+        .filter(|(_, e)| (bud.thorough || e.quick) && !e.prog.nonunique)
         .filter(|(_, e)| only.as_ref().map(|o| e.prog.name.contains(o.as_str())).unwrap_or(true))
         .collect();
     // in the quick tier every second quick entry (the catalogue is the same as for the other fields)
